@@ -85,6 +85,7 @@ def fingerprint_items() -> List[Tuple[str, Optional[str]]]:
         (GEN + "input_types.py", "InputTypesGenerator._parse_input_definition"),
         (GEN + "input_types.py", "InputTypesGenerator._process_field_value"),
         (GEN + "arguments.py", "ArgumentsGenerator.generate"),
+        (GEN + "arguments.py", "ArgumentsGenerator._get_dict_value"),
         (GEN + "enums.py", "EnumsGenerator._parse_enum_definition"),
         (GEN + "package.py", "PackageGenerator.add_operation"),
         (GEN + "package.py", "PackageGenerator._validate_unique_file_names"),
@@ -239,13 +240,14 @@ class Twin:
             p = self.fallback
         return p
 
-    def method_triggers(self, snake: bool, ret: str, names: Sequence[str]) -> List[bool]:
+    def method_triggers(self, snake: bool, ret: str, names: Sequence[str], ser_any: bool = False) -> List[bool]:
         py = [self.var_py(snake, n) for n in names]
-        return ["self" in py, "kwargs" in py, "query" in py and "_query" in py, "gql" in py or ret in py]
+        return ["self" in py, "kwargs" in py, "query" in py and "_query" in py,
+                "gql" in py or ret in py or (ser_any and METHOD_SERIALIZE in py)]
 
-    def method_region(self, snake: bool, ret: str, names: Sequence[str], sig: str) -> Optional[str]:
+    def method_region(self, snake: bool, ret: str, names: Sequence[str], sig: str, ser_any: bool = False) -> Optional[str]:
         """the finding region a failing method lies in, given HOW it failed"""
-        t_self, t_kw, t_cap, t_glob = self.method_triggers(snake, ret, names)
+        t_self, t_kw, t_cap, t_glob = self.method_triggers(snake, ret, names, ser_any)
         if sig == "broken-output":
             if t_self:
                 return "trigSelfParam"
@@ -983,6 +985,7 @@ def random_package_cases(rng: Any, names: Sequence[str], count: int) -> List[Tup
 METHOD_KINDS = ["sync", "async", "subscription"]
 METHOD_RET = "Q"  # the result class of the operation `Q` (str_to_pascal_case of the operation name)
 METHOD_OP_TEXT = "OPTEXT"
+METHOD_SERIALIZE = "serialize_dt"  # serialize function of the custom scalar DT (Model/NameScopes.lean serName)
 METHOD_SIGS = ("broken-output", "caller-value-lost", "method-unusable")
 
 
@@ -999,7 +1002,7 @@ def method_pool(full: bool) -> List[str]:
         out += [b, "_" + b]
         if full:
             out += [b.capitalize(), b + "_"]
-    out += ["x", "fooBar", "foo_bar"]
+    out += ["x", "fooBar", "foo_bar", "createdAfter", "class", METHOD_SERIALIZE]
     seen: List[str] = []
     for n in out:
         if n not in seen and GNAME_RE.match(n):
@@ -1009,20 +1012,21 @@ def method_pool(full: bool) -> List[str]:
 
 def method_cases(rng: Any, full: bool, triples: int) -> List[Dict[str, Any]]:
     """EVERY variable list of length 1 and 2 over the pool (ordered, distinct names; the default
-    patterns that change the parameter order), both snake settings, the three method kinds; plus
-    seeded random lists of length 3-4"""
+    patterns that change the parameter order), both snake settings, the three method kinds; the same lists with
+    the first variable typed as a custom scalar WITH a serialize function (third element of a variable: the dict
+    value is then `serialize_dt(<name>)`); plus seeded random lists of length 3-4 with random serialize marks"""
     pool = method_pool(full)
     lists: List[List[List[Any]]] = [[]]
     for a in pool:
-        lists += [[[a, False]], [[a, True]]]
+        lists += [[[a, False]], [[a, True]], [[a, False, True]], [[a, True, True]]]
     for a in pool:
         for b in pool:
             if a != b:
-                lists += [[[a, False], [b, False]], [[a, True], [b, False]], [[a, False], [b, True]]]
+                lists += [[[a, False], [b, False]], [[a, True], [b, False]], [[a, False, True], [b, False]]]
     for _ in range(triples):
         k = rng.choice([3, 3, 4])
         names = rng.sample(pool, k)
-        lists.append([[n, rng.random() < 0.5] for n in names])
+        lists.append([[n, rng.random() < 0.5] + ([True] if rng.random() < 0.3 else []) for n in names])
     return [{"level": "method", "snake": sn, "kind": kind, "vars": vs}
             for vs in lists for sn in (False, True) for kind in METHOD_KINDS]
 
@@ -1045,6 +1049,11 @@ class _Data:
 class _Parsed:
     def __init__(self, d: Any) -> None:
         self.d = d
+
+
+class _Ser:
+    def __init__(self, v: Any) -> None:
+        self.v = v
 
 
 class _FakeBase:
@@ -1085,6 +1094,8 @@ def _enc_val(v: Any, fake: Any) -> Any:
         return {"data": _enc_val(v.r, fake)}
     if isinstance(v, _Parsed):
         return {"parsed": _enc_val(v.d, fake)}
+    if isinstance(v, _Ser):
+        return {"ser": _enc_val(v.v, fake)}
     return {"other": repr(v)[:80]}
 
 
@@ -1114,12 +1125,16 @@ def observe_method(case: Dict[str, Any]) -> Dict[str, Any]:
         snake, kind, vars_ = case["snake"], case["kind"], case["vars"]
         schema = _METHOD_SCHEMA.get("s")
         if schema is None:  # the generators only read it
-            schema = _METHOD_SCHEMA["s"] = build_ast_schema(parse("type Query { f: Int } type Subscription { f: Int }"))
+            schema = _METHOD_SCHEMA["s"] = build_ast_schema(parse("scalar DT type Query { f: Int } type Subscription { f: Int }"))
+        from ariadne_codegen.client_generators.scalars import ScalarData
+
         optype = "subscription" if kind == "subscription" else "query"
-        vd = ", ".join(f"${n}: Int" + ("" if d else "!") for n, d in vars_)
+        vd = ", ".join(f"${v[0]}: " + ("DT" if len(v) > 2 and v[2] else "Int") + ("" if v[1] else "!") for v in vars_)
         op = parse(f"{optype} {METHOD_RET}" + (f"({vd})" if vd else "") + " { f }").definitions[0]
-        ag = ArgumentsGenerator(schema=schema, convert_to_snake_case=snake)
-        cg = ClientGenerator(base_client_import=generate_import_from(["AsyncBaseClient"], "async_base_client", 1), arguments_generator=ag)
+        scalars = {"DT": ScalarData(type_="str", serialize=METHOD_SERIALIZE, graphql_name="DT")}
+        ag = ArgumentsGenerator(schema=schema, convert_to_snake_case=snake, custom_scalars=scalars)
+        cg = ClientGenerator(base_client_import=generate_import_from(["AsyncBaseClient"], "async_base_client", 1), arguments_generator=ag,
+                             custom_scalars=scalars)
         try:
             cg.add_method(op, name="m", return_type=METHOD_RET, return_type_module="q", operation_str=METHOD_OP_TEXT, async_=(kind != "sync"))
         except (AttributeError, ImportError, TypeError):
@@ -1153,7 +1168,7 @@ def observe_method(case: Dict[str, Any]) -> Dict[str, Any]:
         def model_validate(d: Any) -> Any:
             return _Parsed(d)
 
-    g: Dict[str, Any] = {"gql": (lambda q: q), METHOD_RET: Ret, "UNSET": object(), "UnsetType": type(None)}
+    g: Dict[str, Any] = {"gql": (lambda q: q), METHOD_RET: Ret, "UNSET": object(), "UnsetType": type(None), METHOD_SERIALIZE: _Ser}
     for nm in ("Dict", "Any", "Optional", "Union", "List", "AsyncIterator"):
         g[nm] = getattr(typing, nm)
     exec(code, g)
@@ -1161,7 +1176,7 @@ def observe_method(case: Dict[str, Any]) -> Dict[str, Any]:
     fake = _FakeBase(is_async=(kind != "sync"))
     # the caller passes one value per variable POSITIONALLY: required variables first, then the optional
     # ones, each group in document order (the documented signature convention)
-    order = [i for i, (_, d) in enumerate(vars_) if not d] + [i for i, (_, d) in enumerate(vars_) if d]
+    order = [i for i, v in enumerate(vars_) if not v[1]] + [i for i, v in enumerate(vars_) if v[1]]
     args = [_Arg(i) for i in order]
     try:
         if kind == "sync":
@@ -1195,7 +1210,7 @@ def method_verdict(case: Dict[str, Any], obs: Dict[str, Any]) -> Optional[Tuple[
     oc = obs.get("outcome", {})
     if oc.get("err") == "SyntaxError":
         return "broken-output", f"the emitted method does not compile ({oc.get('msg')}): {obs.get('src', '').splitlines()[0][:200]}"
-    want_vars = {"dict": [[n, {"arg": i}] for i, (n, _) in enumerate(case["vars"])]}
+    want_vars = {"dict": [[v[0], {"ser": {"arg": i}} if len(v) > 2 and v[2] else {"arg": i}] for i, v in enumerate(case["vars"])]}
     sent = obs.get("sent")
     if sent is not None and (sent["variables"] != want_vars or sent["query"] != "text"):
         return "caller-value-lost", f"sent query={json.dumps(sent['query'])} variables={json.dumps(sent['variables'])}, wanted the operation text and {json.dumps(want_vars)}"
@@ -1227,7 +1242,8 @@ def judge_methods(ctx: Ctx, st: Optional[LeanStatus], cases: List[Dict[str, Any]
         model = common.run_driver(ctx.prop, [_method_line(c) for c in cases], chunk=50000)
     bad = 0
     for i, (case, obs) in enumerate(zip(cases, obs_all)):
-        names = [n for n, _ in case["vars"]]
+        names = [v[0] for v in case["vars"]]
+        ser_any = any(len(v) > 2 and v[2] for v in case["vars"])
         inp = {"level": "method", "snake": case["snake"], "kind": case["kind"], "vars": case["vars"]}
         res.seen(["method", case["snake"], case["kind"], case["vars"]], nontrivial=True)
         res.count(f"methods:{label}:{case['kind']}")
@@ -1236,7 +1252,7 @@ def judge_methods(ctx: Ctx, st: Optional[LeanStatus], cases: List[Dict[str, Any]
                 bad += 1
                 res.mismatches.append(Mismatch("method", inp, f"observer: {obs['observer']}", "an emitted method"))
             continue
-        ttrig = tw.method_triggers(case["snake"], METHOD_RET, names)
+        ttrig = tw.method_triggers(case["snake"], METHOD_RET, names, ser_any)
         tscope = (all(tw.scope_single_trigger("variable", case["snake"], n) is None for n in names)
                   and all(tw.scope_pair_trigger("variable", case["snake"], a, b) is None for a, b in itertools.combinations(names, 2)))
         if model is not None and "raised" not in obs:
@@ -1267,7 +1283,7 @@ def judge_methods(ctx: Ctx, st: Optional[LeanStatus], cases: List[Dict[str, Any]
                                                {"trig": ttrig, "scope_supported": tscope}))
         else:
             sig, detail = v
-            region = tw.method_region(case["snake"], METHOD_RET, names, sig)
+            region = tw.method_region(case["snake"], METHOD_RET, names, sig, ser_any)
             res.count(f"inside:{region}" if region else "method-oracle:unknown-failure")
             _fail(res, sig, region, inp, f"method for {case['kind']} operation with variables {case['vars']} (snake={case['snake']}): {detail}")
     if cases and label in ("exhaustive", "search"):
@@ -1821,7 +1837,7 @@ def run(ctx: Ctx, st: Optional[LeanStatus]) -> Result:
     res.assumptions += [
         "keyword.kwlist and dir(pydantic.BaseModel) of the interpreter running the generator (regenerated into Tables.lean on every run)",
         "the plugin hook is the identity unless a plugin overrides process_name (hook position checked with test plugins)",
-        "method scope: no custom scalar with a serialize function (the dict value is then serialize(<name>): C03); variables are Int / Int!; the caller passes non-callable values",
+        "method scope: variables are Int / Int! or one custom scalar DT with a serialize function (what serialize does to an omitted / None argument is C03's business); the caller passes non-callable values positionally",
     ]
     return res
 
